@@ -143,6 +143,12 @@ def binop(eng, op, a, b):
         eng.assume(TCStr.len(r) == z3.If(b.e > 0, b.e, 0))
         eng.assume(forall_pat([i], z3.Implies(z3.And(0 <= i, i < TCStr.len(r)), TCStr.at(r, i) == ord(a)), TCStr.at(r, i)))
         return SV(TCStr, r)
+    if op == 'Add' and (type_of(a) == TCStr or type_of(b) == TCStr) and (type_of(a) == TChar or type_of(b) == TChar):
+        # a character next to a code-point string: the one-character string
+        def one(c):
+            return SV(TCStr, TCStr.mk(z3.IntVal(1), z3.Store(z3.K(z3.IntSort(), z3.IntVal(0)), 0, c.e)))
+        a = one(a) if type_of(a) == TChar else a
+        b = one(b) if type_of(b) == TChar else b
     if op == 'Add' and (type_of(a) == TCStr or type_of(b) == TCStr) and (isinstance(a, str) or type_of(a) == TCStr) \
             and (isinstance(b, str) or type_of(b) == TCStr):
         if isinstance(a, str) and a == '':
